@@ -399,7 +399,7 @@ fn cast(_tier: Tier) -> Vec<Case> {
             for s in &shapes {
                 for (fname, x) in cast_fills(from, s) {
                     let _ = fname;
-                    out.push(Case::new("Cast", format!("to {}", to.name()), vec![Some(x)]).attr_i("to", to.onnx() as i64).vclass(format!("from {}", crate::case::dt_family(from))));
+                    out.push(Case::new("Cast", format!("to {}", to.name()), vec![Some(x)]).attr_i("to", to.onnx() as i64).vclass(if to == Dt::Bool { String::new() } else { format!("from {}", crate::case::dt_family(from)) }));
                 }
             }
         }
@@ -417,7 +417,7 @@ fn cast_like(_tier: Tier) -> Vec<Case> {
             for s in [vec![], vec![5], vec![2, 3]] {
                 for (fname, x) in cast_fills(from, &s) {
                     let _ = fname;
-                    out.push(Case::new("CastLike", format!("to {}", to.name()), vec![Some(x), Some(fill_small(to, &[2], 0))]).vclass(format!("from {}", crate::case::dt_family(from))));
+                    out.push(Case::new("CastLike", format!("to {}", to.name()), vec![Some(x), Some(fill_small(to, &[2], 0))]).vclass(if to == Dt::Bool { String::new() } else { format!("from {}", crate::case::dt_family(from)) }));
                 }
             }
         }
